@@ -1,4 +1,5 @@
 import DynasmVerif.Model.A64Enc
+import DynasmVerif.Model.RvEnc
 
 /-! helpers shared by the generated obligation files (C03, C04) -/
 
@@ -27,3 +28,9 @@ macro "enc_unfold" : tactic => `(tactic|
     DynasmVerif.A64Imm.W64.encOk, DynasmVerif.A64Imm.W64.encVal, DynasmVerif.A64Imm.W64.masked, DynasmVerif.A64Imm.W64.offset, DynasmVerif.A64Imm.W64.ctz,
     DynasmVerif.A64Imm.Stretched.encOk, DynasmVerif.A64Imm.Stretched.encVal, DynasmVerif.A64Imm.Stretched.spread,
     DynasmVerif.A64Imm.Float.encOk, DynasmVerif.A64Imm.Float.encVal] at *)
+
+open DynasmVerif.RvEnc DynasmVerif.Enc in
+/-- unfold the riscv literal-path model down to bit-vector operations on literals -/
+macro "rv_unfold" : tactic => `(tactic|
+  simp only [Check.ok, rangeOk, DynasmVerif.RvEnc.bitmask, contrib, Field.value, shl32, inRange, inRange2,
+    Nat.reduceDiv, Nat.reduceMod, Nat.reduceBEq, Nat.reducePow, Nat.reduceSub, if_true, if_false, Bool.false_eq_true, BitVec.or_zero, BitVec.zero_or] at *)
